@@ -565,6 +565,11 @@ func rsFaults(c *Ctx, in rsWorld, all bool) {
 	} else {
 		ks = append(ks, 1+c.Rng.Intn(calls), 1+c.Rng.Intn(calls), calls)
 	}
+	for i, k := range append([]int{}, ks...) {
+		if all || i == len(ks)-1 || c.Rng.Intn(2) == 0 {
+			ks = append(ks, -k) // the same call answered with a 409 Conflict (mutating calls only)
+		}
+	}
 	for _, k := range ks {
 		k := k
 		impl := guard(func() interface{} {
